@@ -122,7 +122,7 @@ def run(rep):
         same = False
         if o == 'ok' and c['proj'] is not None:
             p = project(obj)
-            if 'unknown' in sp['path']:
+            if any(a.startswith('unknown') for a in sp['path']):
                 # the field that holds the injected unknown directive (the designated extension container) is left out on both sides
                 pf = dict(p.get('fields', {})) if isinstance(p, dict) else {}
                 cf = dict(c['proj'].get('fields', {})) if isinstance(c['proj'], dict) else {}
